@@ -307,6 +307,7 @@ func (c *Collection) Pull(ctx context.Context, opts ...ReadOption) <-chan *Colle
 		}
 	}()
 
+	verifhook.Yield("pull.opened")
 	return send
 }
 
@@ -323,6 +324,7 @@ func (c *Collection) PullID(ctx context.Context, id string, opts ...ReadOption) 
 	go func() {
 		defer close(send)
 		defer cancel()
+		verifhook.Yield("pullid.open")
 		for change := range c.Pull(ctx, opts...) {
 			if change.Id != id {
 				continue
